@@ -17,7 +17,14 @@ wt = f'/tmp/sv-{name}'
 
 
 def sh(cmd, **kw):
-    return subprocess.run(cmd, capture_output=True, text=True, **kw)
+    try:
+        return subprocess.run(cmd, capture_output=True, text=True, **kw)
+    except subprocess.TimeoutExpired as e:
+        class R:
+            returncode = 124
+            stdout = (e.stdout or b'').decode() if isinstance(e.stdout, bytes) else (e.stdout or '')
+            stderr = 'TIMEOUT'
+        return R()
 
 
 sh(['git', '-C', '/repo', 'worktree', 'remove', '--force', wt])
@@ -47,14 +54,14 @@ for f in files:
         dirs.add('tests/web')
     if f.startswith('circuits/net') or f.startswith('circuits/io'):
         dirs.update(['tests/web', 'tests/node'])
-t = sh(['/venv/bin/python', '-m', 'pytest', '-q', '-p', 'no:cacheprovider', '--timeout=900',
+t = sh(['/venv/bin/python', '-m', 'pytest', '-q', '-p', 'no:cacheprovider', '--timeout=180',
         '--deselect', 'tests/net/test_tcp.py::test_tcp_lookup_failure', '--deselect', 'tests/core/test_signals.py',
-        '--deselect', 'tests/app/test_daemon.py', '-x'] + sorted(dirs), cwd=wt, timeout=2400)
+        '--deselect', 'tests/app/test_daemon.py', '-x'] + sorted(dirs), cwd=wt, timeout=900)
 if t.returncode != 0:
     # load-sensitive tests: one retry of the failures only
-    t = sh(['/venv/bin/python', '-m', 'pytest', '-q', '--timeout=900', '--lf',
+    t = sh(['/venv/bin/python', '-m', 'pytest', '-q', '--timeout=180', '--lf',
             '--deselect', 'tests/net/test_tcp.py::test_tcp_lookup_failure', '--deselect', 'tests/core/test_signals.py',
-            '--deselect', 'tests/app/test_daemon.py'] + sorted(dirs), cwd=wt, timeout=2400)
+            '--deselect', 'tests/app/test_daemon.py'] + sorted(dirs), cwd=wt, timeout=900)
 meta['tests_run'] = sorted(dirs)
 meta['tests_tail'] = t.stdout.strip().splitlines()[-1] if t.stdout.strip() else ''
 meta['tests_pass'] = t.returncode == 0
